@@ -84,10 +84,6 @@ _WARN_THRESHOLD = int(MAX_ALLOCS * 0.8)
 # IPC stream EOS marker: continuation token (0xFFFFFFFF) + 0-length metadata
 _IPC_EOS = b"\xff\xff\xff\xff\x00\x00\x00\x00"
 
-# Overhead for IPC stream framing (schema message + EOS) added to
-# ipc.get_record_batch_size() when estimating the allocation size.
-_STREAM_OVERHEAD = 4096
-
 
 def _has_dictionary_columns(schema: pa.Schema) -> bool:
     """Check if any top-level field uses dictionary encoding."""
@@ -431,8 +427,13 @@ class ShmSegment:
         assert shm_buf is not None  # segment still open
 
         if not _has_dictionary_columns(batch.schema):
-            # Non-dict: write IPC stream directly into SHM via _ShmSink
-            estimated = ipc.get_record_batch_size(batch) + _STREAM_OVERHEAD
+            # Non-dict: write IPC stream directly into SHM via _ShmSink.
+            # The stream is schema message + record batch message + EOS.  The
+            # schema message has no upper bound (field count, field/schema
+            # metadata), so it is measured rather than covered by a fixed
+            # allowance: an undersized region lets the writer run into the
+            # next allocation.
+            estimated = batch.schema.serialize().size + ipc.get_record_batch_size(batch) + len(_IPC_EOS)
             offset = self._allocator.allocate(estimated)
             if offset is None:
                 return None
